@@ -20,7 +20,7 @@ KINDS = ("boxcar", "gaussian", "lorentzian")
 
 
 def REQUIRED(tier):
-    return ["responses_compared", "argmax_checks", "invariance_checks", "boxcar_recoveries", "kind:boxcar", "kind:gaussian", "kind:lorentzian", "len:not_fft_good", "pulse:wraps_around_end", "kernel_direct_unsorted_bank", "long_series", "regime:uncentred_data_with_baseline", "invariance:offset_with_centring_off", "construction_after_refused_one", "regime:baseline_1e5_times_noise", "input_buffer_reused_after_construction", "bank_with_template_as_wide_as_data", "fullwidth_template_present"]
+    return ["responses_compared", "argmax_checks", "invariance_checks", "boxcar_recoveries", "kind:boxcar", "kind:gaussian", "kind:lorentzian", "len:not_fft_good", "pulse:wraps_around_end", "kernel_direct_unsorted_bank", "long_series", "regime:uncentred_data_with_baseline", "invariance:offset_with_centring_off", "construction_after_refused_one", "regime:baseline_1e5_times_noise", "input_buffer_reused_after_construction", "bank_with_template_as_wide_as_data", "fullwidth_template_present", "held_filter_checks"]
 
 
 def cases(tier, seed):
@@ -356,6 +356,7 @@ def _boxcar(case, ctx, rng):
     nbmax = int(rng.choice([8, 16, 32]))
     spacing = float(rng.choice([1.5, 2.0]))
     widths = [int(w) for w in MatchedFilter.get_box_width_spacing(nbmax, spacing)]
+    keepers = []
     buf = np.zeros(n, dtype=np.float32)     # one work buffer reused for every profile, cleared as soon as the filter has been built
     for w in widths:
         for start in (0, 1, n // 3, n - w):
@@ -371,6 +372,13 @@ def _boxcar(case, ctx, rng):
             except Exception as exc:  # noqa: BLE001
                 ctx.violation(f"boxcar-raised:{type(exc).__name__}@{exc_site(exc)}", fmt_exc(exc), one)
                 return
+            # filters built earlier in this sweep are still alive: each keeps describing its own data after the others were built
+            keepers.append((mf, np.array(mf.convs, copy=True), int(mf.peak_bin), float(mf.snr)))
+            for omf, oconvs, opk, osnr in keepers[-4:-1]:
+                ctx.count("held_filter_checks")
+                if not np.array_equal(np.asarray(omf.convs), oconvs) or int(omf.peak_bin) != opk or float(omf.snr) != osnr or float(np.asarray(omf.convs).max()) != osnr:
+                    ctx.violation("earlier-filter-changed-by-later-construction", f"n={n}: the responses of a MatchedFilter built earlier changed when another filter of the same shape was constructed", one)
+                    return
             if mf.peak_bin != start or int(mf.best_temp.width) != w:
                 L = _good(n)
                 pos = ("edge" if start in (0, n - w) else "interior") + ("" if _fft_friendly(n) else ":n-not-fft-friendly")
